@@ -126,7 +126,7 @@ def physCore (i : Inp α) (kind : Kind) (x : Var → α) : List (Excess α) :=
 /-- the clause of C01 the code's rows do NOT enforce (known finding D14): full use of stored food in
     the regimes without storage between years.  (The other former gap, D10 — cumulative meat eaten ≤
     cumulative slaughter with storage — was repaired in /repo and is now a clause of `physCore`;
-    `meatGapBefore` keeps the statement about the slaughter series itself for the check.) -/
+    `meatVsSlaughter` keeps the statement about the slaughter series itself for the check.) -/
 def physGap (i : Inp α) (kind : Kind) (x : Var → α) : List (Excess α) :=
   (if kind = .toHumans && i.addStored && !i.storeBetweenYears then
     [ex "stored-full-use-no-storage" (i.nmonths - 1) (i.storedInitial - cum (storedUse i x) (i.nmonths - 1))]
